@@ -208,6 +208,31 @@ char *bad_OUT7_wrong_key(const unsigned char *path, const unsigned char *k, cons
 char *good_sized(const char *a, const char *b) { char *v = (char*)cJSON_malloc(strlen(a) + strlen(b) + 2); sprintf(v, "%s/%s", a, b); return v; }
 char *good_index(const char *a, size_t i) { char *v = (char*)cJSON_malloc(strlen(a) + 20 + sizeof("/")); sprintf(v, "%s/%lu", a, (unsigned long)i); return v; }
 
+/* LST1 (relinker calls, stale order) */
+static cJSON *sort_list(cJSON *list, const cJSON_bool case_sensitive) { (void)case_sensitive; if (list && list->next) { cJSON *n = list->next; n->next = list; list->next = NULL; n->prev = NULL; list->prev = n; return n; } return list; }
+static void bad_LST1_sort_same_head(cJSON * const object)
+{
+    cJSON *sorted = sort_list(object->child, 1);
+    if (sorted == object->child) { return; }
+    object->child = sorted;
+    if (object->child != NULL) { object->child->prev = sorted; }
+}
+static void good_sort(cJSON * const object)
+{
+    object->child = sort_list(object->child, 1);
+    if (object->child != NULL) { cJSON *last = object->child; while (last->next != NULL) { last = last->next; } object->child->prev = last; }
+}
+static void bad_LST1_tail_before_switch(cJSON *parent, cJSON *item, cJSON *replacement)
+{
+    replacement->next = item->next;
+    replacement->prev = item->prev;
+    if (replacement->next == NULL) { parent->child->prev = replacement; }
+    if (parent->child == item) { parent->child = replacement; }
+}
+/* TAB20 */
+static int bad_TAB20_first_byte(const cJSON *a, const cJSON *b) { int diff = a->string[0] - b->string[0]; if (diff == 0) { diff = strcmp(a->string, b->string); } return diff; }
+static int good_key_compare(const cJSON *a, const cJSON *b) { if (a->string[0] == '\0') { return -1; } return strcmp(a->string, b->string); }
+
 /* TAB18 / ORD1 */
 static cJSON_bool decode_index(const unsigned char * const pointer, size_t * const index) { *index = (size_t)(pointer[0] - '0'); return 1; }
 static cJSON *get_item_from_pointer(cJSON * const object, const char * pointer, const cJSON_bool case_sensitive) { (void)pointer; (void)case_sensitive; return object ? object->child : NULL; }
